@@ -50,7 +50,18 @@ class SamplePolicy(AbstractActorCriticPolicy):
 
 def _draw(ctx, n, eps):
     rng = ctx.rng
-    adv = rng.uniform(-2, 2, n)
+    # advantage regimes: ordinary; tiny scale (std far below sqrt(machine eps): normalisation must divide
+    # by std + eps, not by sqrt(var + eps)); large common offset (|mean| >> std: the variance must be
+    # computed around the mean, E[x^2] - E[x]^2 cancels catastrophically in float32)
+    regime = str(rng.choice(["ordinary", "ordinary", "tiny", "offset"]))
+    z = rng.uniform(-2, 2, n)
+    if regime == "tiny":
+        adv = z * (1e-10 if ctx.x64 else 1e-5)
+    elif regime == "offset":
+        adv = float(rng.choice([-1000.0, 300.0, 1000.0])) + 0.5 * z
+    else:
+        adv = z
+    ctx.count("advantages:" + regime)
     lp_old = rng.uniform(-3, -0.1, n)
     # ratios inside / outside both clip edges, both advantage signs
     place = rng.choice(["in", "lo", "hi", "far-lo", "far-hi"], n)
@@ -65,7 +76,7 @@ def _draw(ctx, n, eps):
     v_new = v_old + dv
     ret = v_old + rng.uniform(-1.5, 1.5, n)
     ent = rng.uniform(0, 2, n)
-    return adv, lp_old, lp_new, v_old, v_new, ret, ent, place
+    return adv, lp_old, lp_new, v_old, v_new, ret, ent, place, regime
 
 
 def _buffer(n, adv, lp_old, v_old, ret):
@@ -78,7 +89,7 @@ def check_losses(ctx, idx):
     rng = ctx.rng
     n = int(rng.integers(2, ctx.budget(12, 40)))
     eps = float(rng.choice([0.1, 0.2, 0.3]))
-    adv, lp_old, lp_new, v_old, v_new, ret, ent, place = _draw(ctx, n, eps)
+    adv, lp_old, lp_new, v_old, v_new, ret, ent, place, regime = _draw(ctx, n, eps)
     on_policy = bool(rng.random() < 0.2)
     if on_policy:
         lp_new = lp_old.copy()
@@ -95,7 +106,7 @@ def check_losses(ctx, idx):
     args = (cfg["normalize"], cfg["clip"], cfg["clip_value"], cfg["value_coef"], cfg["entropy_coef"])
     (loss, stats), grads = PPO.ppo_loss_grad(policy, buf, *args)
     m = ctx.drv.call("ppo_loss", cfg=cfg, samples=samples)
-    case = {"kind": "ppo_loss", "cfg": cfg, "samples": samples, "on_policy": on_policy,
+    case = {"kind": "ppo_loss", "cfg": cfg, "samples": samples, "on_policy": on_policy, "advantage_regime": regime,
             "impl": {"loss": float(loss), "approx_kl": float(stats.approx_kl), "policy_loss": float(stats.policy_loss),
                      "value_loss": float(stats.value_loss), "entropy_loss": float(stats.entropy_loss)},
             "model": {k: m[k] for k in ("loss", "approx_kl", "policy_loss", "value_loss", "entropy_loss")}}
@@ -105,7 +116,9 @@ def check_losses(ctx, idx):
     ctx.count("ppo:normalize" if cfg["normalize"] else "ppo:raw-adv")
     for p in place:
         ctx.count("ratio:" + str(p))
-    sc = 16.0
+    # float32 with a large common offset: the inputs themselves carry ~6e-5 absolute rounding, which the
+    # normalisation divides by a std of ~0.5
+    sc = 16.0 if (regime != "offset" or ctx.x64) else 200.0
     for f, clause in [("policy_loss", "ppo_policy_loss_is_clipped_surrogate"),
                       ("value_loss", "ppo_value_loss_is_half_mse_or_ppo2_max"),
                       ("entropy_loss", "entropy_loss_is_neg_mean_entropy"),
@@ -190,7 +203,34 @@ def check_optimizers(ctx):
     # SAC has no global-norm clipping by construction (plain Adam): documented, not part of the statement
 
 
+def check_on_policy_end_to_end(ctx):
+    """'on data collected by the current policy every ratio is 1 and the approximate KL is 0', end to end:
+    a rollout collected by the real algorithm with the real MLPActorCriticPolicy (all action-space kinds,
+    clipping active on bounded boxes, non-unit std), then the real PPO loss with the unchanged policy."""
+    from .common.realpolicy import reevaluation_cases
+    for c in reevaluation_cases(ctx, ctx.budget(7, 28)):
+        flat, policy = c["flat"], c["policy"]
+        flat = eqx.tree_at(lambda b: (b.returns, b.advantages), flat,
+                           (jnp.zeros_like(flat.rewards), jnp.ones_like(flat.rewards)), is_leaf=lambda x: x is None)
+        normalize = bool(ctx.rng.random() < 0.5)
+        _, stats = PPO.ppo_loss(policy, flat, normalize, 0.2, True, 0.5, 0.01)
+        ratios = np.exp(c["reevaluated_log_prob"] - c["stored_log_prob"])
+        slim = {k: v for k, v in c.items() if k not in ("policy", "flat")}
+        case = {**slim, "kind": "on-policy-end-to-end", "approx_kl": float(stats.approx_kl),
+                "policy_loss": float(stats.policy_loss), "max_abs_ratio_minus_one": float(np.max(np.abs(ratios - 1)))}
+        ctx.case({"kind": "on-policy-end-to-end", "space": c["action_space"], "lp": c["stored_log_prob"]}, True)
+        ctx.count("on-policy-e2e:" + c["action_space"])
+        ctx.count("on-policy-e2e:out-of-bounds-samples", c["out_of_bounds_samples"])
+        tol = 1e-6 if ctx.x64 else 2e-3
+        expected_pl = 0.0 if normalize else -1.0        # advantages are all 1: -mean(A) (normalised: 0)
+        if not (abs(case["approx_kl"]) < tol and case["max_abs_ratio_minus_one"] < tol
+                and abs(case["policy_loss"] - expected_pl) < 10 * tol):
+            ctx.phi_fail("on_policy_ratio_one_kl_zero", case, key="ppo:on_policy_end_to_end")
+        ctx.gc(4)
+
+
 def run(ctx):
+    check_on_policy_end_to_end(ctx)
     for i in range(ctx.budget(25, 200)):
         check_losses(ctx, i)
         ctx.gc(16)
